@@ -59,6 +59,18 @@ def inpkg_files():
                     m[d + '/' + f] = sub + 'zz_verif_' + f
     return m
 
+def modfile_args():
+    """with VERIF_REPO set, build the harness module against that tree: `-modfile` with the replace directive redirected."""
+    if REPO == '/repo':
+        return []
+    mod = open(os.path.join(GO, 'go.mod')).read().replace('=> /repo', '=> ' + REPO)
+    path = os.path.join(WORK, 'go.alt.mod')
+    open(path, 'w').write(mod)
+    src = os.path.join(GO, 'go.sum')
+    if os.path.exists(src):
+        open(os.path.join(WORK, 'go.alt.sum'), 'w').write(open(src).read())
+    return ['-modfile', path]
+
 def build_harness(name, race=False, tags='verif', replacements=None):
     """(re)build go/cmd/<name> against /repo's current working tree with hooks on."""
     with Lock('go'):
